@@ -106,6 +106,9 @@ func (vm *VM) errIndexOutOfRange() runtimeError {
 
 // newPanic returns a new *PanicError with the given error message.
 func (vm *VM) newPanic(msg any) *PanicError {
+	if vm.fn == nil {
+		return &PanicError{message: msg}
+	}
 	return &PanicError{
 		message:  msg,
 		path:     vm.fn.InstructionInfo[vm.pc-1].Path,
@@ -122,6 +125,14 @@ func (vm *VM) convertPanic(msg any) error {
 		return err
 	case outError:
 		return vm.newPanic(err)
+	}
+	if vm.fn == nil {
+		// A deferred native function, called while the VM was panicking, is
+		// panicked.
+		if _, ok := msg.(runtime.Error); ok {
+			return &fatalError{msg: msg}
+		}
+		return vm.newPanic(msg)
 	}
 	switch op := vm.fn.Body[vm.pc-1].Op; op {
 	case OpAddr, OpIndex, -OpIndex, OpIndexRef, -OpIndexRef, OpSetSlice, -OpSetSlice:
